@@ -871,7 +871,7 @@ const neverAnsweredProbes = 300
 // outstanding (and not parked on purpose by hold) the kernel is made to serve snapshot
 // requests; neverAnsweredProbes of them, over at least five seconds, without the call
 // returning is the verdict that the call will never return.
-func (n *node) awaitCall(method string, done <-chan struct{}, hold *voteHold, cancel context.CancelFunc) {
+func (n *node) awaitCall(method string, done <-chan struct{}, hold *voteHold, cancel context.CancelFunc, m *tmmirror.Mirror, pctx context.Context) {
 	if hold != nil {
 		select {
 		case <-done:
@@ -887,11 +887,17 @@ func (n *node) awaitCall(method string, done <-chan struct{}, hold *voteHold, ca
 			return
 		case <-time.After(15 * time.Millisecond):
 		}
-		if n.dead.Load() || n.ctx.Err() != nil {
+		if n.dead.Load() || pctx.Err() != nil {
 			<-done // the incarnation is over: its context ends the call
 			return
 		}
-		if _, _, ok := n.views(); !ok {
+		// probe the mirror and incarnation this call belongs to (the node's fields may be
+		// replaced by a restart while the call is still winding down)
+		var pv tmconsensus.VersionedRoundView
+		c, pcancel := context.WithTimeout(pctx, callTimeout)
+		err := m.VotingView(c, &pv)
+		pcancel()
+		if err != nil {
 			continue // a kernel that does not answer is judged elsewhere
 		}
 		served++
@@ -917,7 +923,8 @@ func (n *node) deliverPH(ph tmconsensus.ProposedHeader) (res tmconsensus.HandleP
 	if n.m == nil || n.dead.Load() {
 		return 0, false
 	}
-	ctx, cancel := n.callCtx()
+	m, pctx := n.m, n.ctx
+	ctx, cancel := context.WithTimeout(pctx, callTimeout)
 	defer cancel()
 	lg := &loopGuard{cancel: cancel}
 	ctx = context.WithValue(ctx, loopGuardKey{}, lg)
@@ -927,16 +934,16 @@ func (n *node) deliverPH(ph tmconsensus.ProposedHeader) (res tmconsensus.HandleP
 	go func() {
 		defer close(done)
 		p, key, msg, stack = verifkit.Guard(func() {
-			if h, rec := n.mapped(); h != nil {
+			if h, rec := n.mapped(m); h != nil {
 				fb := h.HandleProposedHeader(ctx, ph)
 				res = rec.ph
 				n.checkFeedback(fb, "HandleProposedHeader", res.String())
 			} else {
-				res = n.m.HandleProposedHeader(ctx, ph)
+				res = m.HandleProposedHeader(ctx, ph)
 			}
 		})
 	}()
-	n.awaitCall("HandleProposedHeader", done, nil, cancel)
+	n.awaitCall("HandleProposedHeader", done, nil, cancel, m, pctx)
 	if p {
 		n.callerPanic(key, msg, stack)
 		return res, false
@@ -971,7 +978,8 @@ func (n *node) deliverPrevotesHeld(p tmconsensus.PrevoteSparseProof, hold *voteH
 	if n.m == nil || n.dead.Load() {
 		return 0, false
 	}
-	ctx, cancel := n.callCtx()
+	m, pctx := n.m, n.ctx
+	ctx, cancel := context.WithTimeout(pctx, callTimeout)
 	defer cancel()
 	if hold != nil {
 		ctx = context.WithValue(ctx, voteHoldKey{}, hold)
@@ -983,16 +991,16 @@ func (n *node) deliverPrevotesHeld(p tmconsensus.PrevoteSparseProof, hold *voteH
 	go func() {
 		defer close(done)
 		pn, key, msg, stack = verifkit.Guard(func() {
-			if h, rec := n.mapped(); h != nil {
+			if h, rec := n.mapped(m); h != nil {
 				fb := h.HandlePrevoteProofs(ctx, p)
 				res = rec.v
 				n.checkFeedback(fb, "HandlePrevoteProofs", res.String())
 			} else {
-				res = n.m.HandlePrevoteProofs(ctx, p)
+				res = m.HandlePrevoteProofs(ctx, p)
 			}
 		})
 	}()
-	n.awaitCall("HandlePrevoteProofs", done, hold, cancel)
+	n.awaitCall("HandlePrevoteProofs", done, hold, cancel, m, pctx)
 	if pn {
 		n.callerPanic(key, msg, stack)
 		return res, false
@@ -1011,7 +1019,8 @@ func (n *node) deliverPrecommitsHeld(p tmconsensus.PrecommitSparseProof, hold *v
 	if n.m == nil || n.dead.Load() {
 		return 0, false
 	}
-	ctx, cancel := n.callCtx()
+	m, pctx := n.m, n.ctx
+	ctx, cancel := context.WithTimeout(pctx, callTimeout)
 	defer cancel()
 	if hold != nil {
 		ctx = context.WithValue(ctx, voteHoldKey{}, hold)
@@ -1023,16 +1032,16 @@ func (n *node) deliverPrecommitsHeld(p tmconsensus.PrecommitSparseProof, hold *v
 	go func() {
 		defer close(done)
 		pn, key, msg, stack = verifkit.Guard(func() {
-			if h, rec := n.mapped(); h != nil {
+			if h, rec := n.mapped(m); h != nil {
 				fb := h.HandlePrecommitProofs(ctx, p)
 				res = rec.v
 				n.checkFeedback(fb, "HandlePrecommitProofs", res.String())
 			} else {
-				res = n.m.HandlePrecommitProofs(ctx, p)
+				res = m.HandlePrecommitProofs(ctx, p)
 			}
 		})
 	}()
-	n.awaitCall("HandlePrecommitProofs", done, hold, cancel)
+	n.awaitCall("HandlePrecommitProofs", done, hold, cancel, m, pctx)
 	if pn {
 		n.callerPanic(key, msg, stack)
 		return res, false
@@ -1049,7 +1058,8 @@ func (n *node) deliverReplay(hd tmconsensus.Header, proof tmconsensus.CommitProo
 		return nil, false
 	}
 	resp := make(chan tmelink.ReplayedHeaderResponse, 1)
-	ctx, cancel := n.callCtx()
+	m, pctx := n.m, n.ctx
+	ctx, cancel := context.WithTimeout(pctx, callTimeout)
 	defer cancel()
 	select {
 	case n.replayIn <- tmelink.ReplayedHeaderRequest{Header: hd, Proof: proof, Resp: resp}:
@@ -1067,7 +1077,7 @@ func (n *node) deliverReplay(hd tmconsensus.Header, proof tmconsensus.CommitProo
 		case <-ctx.Done():
 		}
 	}()
-	n.awaitCall("ReplayedHeaderRequest", done, nil, cancel)
+	n.awaitCall("ReplayedHeaderRequest", done, nil, cancel, m, pctx)
 	if got {
 		return out.Err, true
 	}
@@ -1165,11 +1175,11 @@ func (r *fgRecorder) HandlePrecommitProofs(ctx context.Context, p tmconsensus.Pr
 
 // mapped returns one of the two shipped feedback mappers in front of the mirror
 // (alternating), or nil when the case delivers directly.
-func (n *node) mapped() (tmconsensus.ConsensusHandler, *fgRecorder) {
+func (n *node) mapped(m *tmmirror.Mirror) (tmconsensus.ConsensusHandler, *fgRecorder) {
 	if !n.useMappers {
 		return nil, nil
 	}
-	rec := &fgRecorder{m: n.m}
+	rec := &fgRecorder{m: m}
 	switch n.mapperTurn.Add(1) % 3 {
 	case 0:
 		return tmconsensus.AcceptAllValidFeedbackMapper{Handler: rec}, rec
